@@ -12,6 +12,7 @@ def run(ck):
     status.r_byte_budget(ck, P, 'C19-R7', tail=True)
     status.r_fill_word(ck, P, 'C19-R8')
     status.r19_9_delegated_rectangle(ck, P)
+    status.r19_12_stride_pairs_with_its_buffer(ck, P)
     geometry.r2_raw_writers_bounded(ck, P, rows=False)
     prefetch.r11_tail_access_needs_remaining_count(ck, P, 'C19-R10')
     geometry.r9_clip_consulted_under_its_flag(ck, P, 'C19-R11')
